@@ -152,3 +152,7 @@ func TestVerifC07Regressions(t *testing.T) {
 		},
 	})
 }
+
+func TestVerifC11Composite(t *testing.T) {
+	vs.Run(t, "C11", func(c *vs.Case) error { return vw.PropC11(c, compositeFactory) })
+}
